@@ -5,4 +5,5 @@ CONSTANTS
   SetOrder = FALSE
   Timestamps = TRUE
   ComponentMemo = TRUE
+  FailureCorrupts = FALSE
 INVARIANT ContentIsFunctionOfModel
